@@ -30,10 +30,20 @@ def aged_connections(c, prop="C15"):
                          {"op": "mark", "tag": "done:" + conn}, {"op": "close", "conn": conn}])
         meta[rid] = {"name": nm, "len": n, "framing": framing, "seed": 500 + i, "host": {("168.63.129.16", 80): "ws", ("169.254.169.254", 80): "imds",
                      ("168.63.129.16", 32526): "ga"}.get((dip, dport), "other"), "conn": conn}
+    # a host that takes the body in slowly (loaded host, slow path: 512 KiB/s through a 64 KiB receive buffer): an exempt
+    # upload of 8 MiB -- far within its limit -- needs 16 s to be taken in; it is accepted and relayed intact all the same
+    big = 8 << 20
+    branches.append([{"op": "connect", "conn": "slowin", "attr": {"uid": 0, "admin": 1, "dip": "10.9.8.7", "dport": 8080}, "timeout_ms": 120000},
+                     {"op": "request", "conn": "slowin", "id": "slowin_up", "method": "PUT", "target": "/vmAgentLog", "headers": [["Host", "h"]],
+                      "body": {"seed": 777, "len": big}, "framing": "cl",
+                      "resp": {"status": 200, "headers": [["X-Host", "slowin_up"]], "body": {"seed": 1, "len": 5}}},
+                     {"op": "close", "conn": "slowin"}])
+    meta["slowin_up"] = {"name": "within-exempt-slow-intake", "len": big, "framing": "cl", "seed": 777, "host": "other", "conn": "slowin",
+                         "limit": 100 << 20}
     # (the mock hosts keep idle upstream connections for 5 minutes here: an upstream connection the HOST closes after 30 idle
     #  seconds is answered 502 by the proxy, which is another scenario and not what is judged)
     ev, d, _ = rig.run_rig({"steps": [{"op": "parallel", "branches": branches}], "drain_ms": 400}, "aged_%s" % prop.lower(), timeout=600,
-                           env_extra={"VERIF_HOST_IDLE_S": "300"})
+                           env_extra={"VERIF_HOST_IDLE_S": "300", "VERIF_HOST_SLOW": "other:524288"})
     resp = {e["id"]: e for e in ev if e["e"] == "Response"}
     rerr = {e["id"]: e for e in ev if e["e"] == "ResponseError"}
     recv = {e["id"]: e for e in ev if e["e"] == "HostRecv" and e.get("id")}
@@ -49,7 +59,7 @@ def aged_connections(c, prop="C15"):
     for rid, m in meta.items():
         h = recv.get(rid)
         r = resp.get(rid)
-        rows.append({"e": "upload", "id": rid, "name": m["name"], "len": m["len"], "limit": LIMIT, "framing": m["framing"],
+        rows.append({"e": "upload", "id": rid, "name": m["name"], "len": m["len"], "limit": m.get("limit", LIMIT), "framing": m["framing"],
                      "answered": r is not None, "status": (r or {}).get("status", 0), "relayed": h is not None,
                      "hostBytes": stray.get(m["host"], 0) if h is None else h["bodyLen"],
                      "bodyIntact": bool(h) and h["bodyLen"] == m["len"] and h["bodySha"] == util.sha(rig.gen_body(m["seed"], m["len"])),
@@ -57,8 +67,8 @@ def aged_connections(c, prop="C15"):
     c.extra["uploads_on_aged_connections"] = [{k: r[k] for k in ("name", "len", "status", "relayed")} for r in rows]
     ok, why, res = validate_trace(c, "LimitTrace", "LimitTrace.cfg", rows, "limit_%s" % prop, count=1, timeout=300)
     if not ok:
-        bad = next((r for r in rows if (r["len"] > LIMIT and not (r["answered"] and 400 <= r["status"] <= 499 and not r["relayed"] and r["hostBytes"] == 0))
-                    or (r["len"] <= LIMIT and not (r["relayed"] and r["bodyIntact"]))), rows[0])
+        bad = next((r for r in rows if (r["len"] > r["limit"] and not (r["answered"] and 400 <= r["status"] <= 499 and not r["relayed"] and r["hostBytes"] == 0))
+                    or (r["len"] <= r["limit"] and not (r["relayed"] and r["bodyIntact"]))), rows[0])
         c.violation("an upload on a connection that had been kept alive for half a minute is not treated by its size: %s" % bad,
                     {"kind": "limit-not-applied-on-aged-connection", "broken": why.replace("invariant ", ""), "which": bad["name"]}, {"rows": rows})
 
